@@ -3,7 +3,8 @@ C03 (relaxation rule), C13 (each switch rewrites only what it documents), C01 (f
 C04 (no crash in the merge)."""
 from pyvc.api import *
 from contracts import common
-S = common.install()
+Kind = spectype("Kind", Atom("Kind"))      # statement types / property names are only compared, hashed and tested for the '%' sentinel here
+S = common.install(kind=Kind, prop=Kind)
 Statement, StSer, Shape = S["Statement"], S["StSer"], S["Shape"]
 spectype("Statement", Statement)
 
@@ -14,10 +15,10 @@ Strategy = schema("Strategy", ["shexer.core.shexing.strategy.direct_shexing_stra
                                "shexer.core.shexing.strategy.direct_and_inverse_shexing_strategy:DirectAndInverseShexingStrategy"],
     {"_allow_opt_cardinality": Bool, "_all_compliant_mode": Bool, "_disable_exact_cardinality": Bool, "_disable_comments": Bool,
      "_keep_less_specific": Bool, "_discard_useless_positive_closures": Bool, "_tolerance": Real, "_disable_or_statements": Bool,
-     "_allow_redundant_or": Bool, "_instantiation_property_str": Str, "_namespaces_dict": Dict(Str, Str)})
+     "_allow_redundant_or": Bool, "_instantiation_property_str": Kind, "_namespaces_dict": Dict(Str, Str)})
 
 # the text of an informative comment is an (uninterpreted) function of the statement's CURRENT figures and of nothing else
-specfun("comment_text", [Opt(Str), Card, Real, Int, Bool], Str)
+specfun("comment_text", [Opt(Kind), Card, Real, Int, Bool], Str)
 COMMENT_OF = "comment_text({0}._st_type, {0}._cardinality, {0}._probability, {0}._n_occurences, {0}._is_inverse)"
 contract(STQ + ".comment_representation", params={"namespaces_dict": Dict(Str, Str)}, returns=Str,
     requires=["self._serializer_object is not None"], ensures=["result == " + COMMENT_OF.format("self")], raises=[],
@@ -72,3 +73,82 @@ contract(ASS + "._generalize_exact_cardinalities", params={"statements": List(St
 contract(ASS + "._remove_comments_from_statements", params={"valid_statements": List(Statement)},
     ensures=["heap_eq('Statement._cardinality')", "heap_eq('Statement._probability')", "heap_eq('Statement._n_occurences')", "heap_eq('Statement._st_type')"],
     raises=[], modifies=["Statement._comments"], props=["C13"], note="disable_comments touches comments only")
+
+# ---- the whole tuning pipeline: each switch rewrites only what it documents (C13), relaxation rule (C03), figures kept (C01) ----
+VS = "valid_statements"
+C0 = "pre(%s[j]._cardinality)" % VS
+P0 = "pre(%s[j]._probability)" % VS
+C1 = "ite(self._all_compliant_mode and %s != 1, ite(self._allow_opt_cardinality and %s == 1, '?', '*'), %s)" % (P0, C0, C0)
+C2 = "ite(self._disable_exact_cardinality and is_int(%s) and card_val(%s) > 1, '+', %s)" % (C1, C1, C1)
+contract(ASS + "._tune_list_of_valid_statements", params={VS: List(Statement)}, mutates=[VS],
+    requires=[DISTINCT.format(VS), HAVE_SER.format(VS)],
+    ensures=["len(%s) == len(old(%s))" % (VS, VS),
+             "forall(Int, lambda j: implies(0 <= j and j < len(%s), exists(Int, lambda k: 0 <= k and k < len(old(%s)) and old(%s)[k] == %s[j])))" % (VS, VS, VS, VS),
+             "forall(Int, lambda j: implies(0 <= j and j < len(%s), %s[j]._cardinality == %s))" % (VS, VS, C2),
+             "forall(Int, lambda j: implies(0 <= j and j < len(%s) and not (self._all_compliant_mode and %s != 1), %s[j]._probability == %s))" % (VS, P0, VS, P0),
+             "heap_eq('Statement._n_occurences')", "heap_eq('Statement._st_type')", "heap_eq('Statement._st_property')", "heap_eq('Statement._is_inverse')",
+             "implies(not self._all_compliant_mode, heap_eq('Statement._probability'))",
+             "implies(not self._all_compliant_mode and not self._disable_exact_cardinality, heap_eq('Statement._cardinality'))",
+             "implies(not self._all_compliant_mode and not self._disable_comments, heap_eq('Statement._comments'))"],
+    raises=[], modifies=["Statement._cardinality", "Statement._probability", "Statement._comments"],
+    props=["C13", "C03", "C01"],
+    note="cardinality after tuning = documented rewrite of the cardinality before; counts, kinds, properties untouched; with every switch off nothing is written")
+
+# ---- MergeableConstraints: the node-kind merge (C04: never crashes; C01: figures of existing statements never written) -----------
+SerFactory = schema("SerFactory", ["shexer.io.shex.formater.statement_serializers.st_serializers_factory:StSerializerFactory"],
+                    {"_direct_base": StSer, "_inverse_base": StSer, "_direct_choice": StSer, "_inverse_choice": StSer})
+MCT = schema("MC", [MC], {"_constraints": List(Statement), "_bnode_constraint": Opt(Statement), "_shape_constraints": Opt(List(Statement)),
+                          "_iri_constraint": Opt(Statement), "_dominant_constraint": Opt(Statement), "_disable_or": Bool,
+                          "_redundant_or_enabled": Bool, "_statement_serializer_factory": Opt(SerFactory), "_namespaces_dict": Opt(Dict(Str, Str))})
+def IN(lst, x): return "exists(Int, lambda q: 0 <= q and q < len(%s) and %s[q] == %s)" % (lst, lst, x)
+CS = "self._constraints"
+SHL = "some(self._shape_constraints)"
+# representation invariant of a group under construction / being merged
+MC_INV = [
+    "self._shape_constraints is not None",     # established by the constructor
+    "forall(Int, lambda j: implies(0 <= j and j < len(%s), has_class(%s[j], 'Statement') and %s[j]._serializer_object is not None))" % (CS, CS, CS),
+    "implies(self._bnode_constraint is not None, has_class(some(self._bnode_constraint), 'Statement') and some(self._bnode_constraint)._serializer_object is not None"
+    " and some(self._bnode_constraint)._st_type == 'BNode' and %s)" % IN(CS, "some(self._bnode_constraint)"),
+    "implies(self._iri_constraint is not None, has_class(some(self._iri_constraint), 'Statement') and some(self._iri_constraint)._serializer_object is not None"
+    " and some(self._iri_constraint)._st_type == 'IRI' and %s)" % IN(CS, "some(self._iri_constraint)"),
+    "forall(Int, lambda j: implies(0 <= j and j < len(%s), has_class(%s[j], 'Statement') and %s[j]._serializer_object is not None and "
+    "some(%s[j]._st_type) != 'IRI' and some(%s[j]._st_type) != 'BNode' and %s))" % (SHL, SHL, SHL, SHL, SHL, IN(CS, SHL + "[j]")),
+    # every member sits in exactly one slot: counting form (no quantifier alternation)
+    "len(%s) == ite(self._bnode_constraint is not None, 1, 0) + ite(self._iri_constraint is not None, 1, 0) + len(%s)" % (CS, SHL),
+]
+FRAME_FIGURES = ["heap_eq('Statement._n_occurences')", "heap_eq('Statement._st_type')", "heap_eq('Statement._st_property')"]
+
+contract(MC + ".add_constraint", params={"statement": Statement},
+    requires=MC_INV + ["has_class(statement, 'Statement')", "statement._serializer_object is not None",
+                       # one statement per (property, type) after the first grouping stage: a kind slot is filled at most once
+                       "implies(some(statement._st_type) == 'BNode', self._bnode_constraint is None)",
+                       "implies(some(statement._st_type) == 'IRI', self._iri_constraint is None)"],
+    ensures=MC_INV + ["is_append(%s, old(%s), statement)" % (CS, CS),
+                      "implies(some(statement._st_type) == 'BNode', self._bnode_constraint == statement)",
+                      "implies(some(statement._st_type) == 'IRI', self._iri_constraint == statement)",
+                      "implies(some(statement._st_type) != 'IRI' and some(statement._st_type) != 'BNode', self._shape_constraints is not None and %s)" % IN(SHL, "statement")],
+    raises=[], modifies=["MC._constraints[self]", "MC._bnode_constraint[self]", "MC._iri_constraint[self]", "MC._shape_constraints[self]"],
+    props=["C04", "C02"], note="every member ends in exactly one slot (bnode / iri / shape list)")
+contract(MC + "._promote_to_dominant", params={"statement": Statement}, requires=[IN(CS, "statement")],
+    ensures=["self._dominant_constraint == statement", "len(%s) == len(old(%s)) - 1" % (CS, CS)], raises=[],
+    modifies=["MC._dominant_constraint[self]", "MC._constraints[self]"], props=["C04"])
+GROUP_PRE = MC_INV + ["len(%s) >= 2" % CS, "self._statement_serializer_factory is not None"]
+contract(MC + "._bnode_merging_strategy", params={},
+    requires=GROUP_PRE + ["self._bnode_constraint is not None"],
+    ensures=["self._dominant_constraint is not None"], raises=[],
+    modifies=["MC._dominant_constraint[self]", "MC._constraints[self]", "alloc"], props=["C04", "C01"],
+    note="IRI and BNode values with or without typed values: a dominant constraint is always chosen, nothing is dereferenced through None")
+contract(MC + "._no_bnode_merging_strategy", params={},
+    requires=GROUP_PRE + ["self._bnode_constraint is None", "self._shape_constraints is not None"],
+    ensures=["self._dominant_constraint is not None"], raises=[],
+    modifies=["MC._dominant_constraint[self]", "MC._constraints[self]"], props=["C04", "C01"],
+    note="also when the threshold removed the plain IRI kind and only shape references are left")
+
+contract(MC + ".__init__", params={"initial_constraint": Opt(Statement), "statement_serializer_factory": Opt(SerFactory), "namespaces_dict": Opt(Dict(Str, Str))},
+    requires=["implies(initial_constraint is not None, has_class(some(initial_constraint), 'Statement') and some(initial_constraint)._serializer_object is not None)"],
+    ensures=MC_INV + ["len(%s) == ite(initial_constraint is None, 0, 1)" % CS, "implies(initial_constraint is not None, %s[0] == some(initial_constraint))" % CS,
+                      "self._statement_serializer_factory == statement_serializer_factory"],
+    raises=[], modifies=["MC._constraints[self]", "MC._bnode_constraint[self]", "MC._iri_constraint[self]", "MC._shape_constraints[self]",
+                         "MC._dominant_constraint[self]", "MC._disable_or[self]", "MC._redundant_or_enabled[self]",
+                         "MC._statement_serializer_factory[self]", "MC._namespaces_dict[self]"],
+    props=["C04", "C02"], note="the constructor establishes the representation invariant (in particular: the shape list exists)")
